@@ -371,10 +371,8 @@ def repointLoop (ls le : Nat) : Nat → Store → Option Nat → Outcome Store
     | none => pure s
     | some previous => repointLoop ls le remaining s previous
 
-/-- `optimize_data_block_and_retain(additional_data_retentions)` -/
-def optimize (s : Store) (roots : List Nat) : Outcome (Store × List Nat) :=
-  -- fix commit "optimize returns an error for a data retention count beyond the existing data"
-  if s.retention > s.cursor then .err .data else do
+/-- `optimize_data_block_and_retain(additional_data_retentions)` after its entry guard -/
+def optimizeBody (s : Store) (roots : List Nat) : Outcome (Store × List Nat) := do
   let currentDataEnd := s.start + s.cursor
   let retainedDataEnd := s.start + s.retention
   let originalRegister := s.currentRegister
@@ -413,6 +411,12 @@ def optimize (s : Store) (roots : List Nat) : Outcome (Store × List Nat) :=
   let newCursor := s.retention + n
   -- cursor := current - start; cells in `current..new_data_end` are set to `Empty`
   pure ({ s with cells := moved.extract 0 newCursor }, mapped)
+
+/-- `optimize_data_block_and_retain(additional_data_retentions)` = `optimize`: a retention count beyond the
+existing data is an `Err` before anything is touched (fix commit "optimize returns an error for a data
+retention count beyond the existing data instead of panicking on an underflow") -/
+def optimize (s : Store) (roots : List Nat) : Outcome (Store × List Nat) :=
+  if s.retention > s.cursor then .err .data else optimizeBody s roots
 
 def retainAll (s : Store) : Store := { s with retention := s.cursor }
 def setRetention (s : Store) (n : Nat) : Store := { s with retention := n }
